@@ -104,6 +104,10 @@ func (ex *Exec) finishCall(s *State, fr *Frame, dst ssa.Value, rv Value) {
 }
 
 func (ex *Exec) invokeMethod(s *State, fr *Frame, recv Iface, m *types.Func, args []Value, dst ssa.Value, pend *pending, c *ssa.CallCommon) {
+	if recv.T == ex.prog.opaqueType {
+		ex.finishCall(s, fr, dst, ex.opaqueResults(s, m.Type().(*types.Signature)))
+		return
+	}
 	if recv.T == ex.prog.hasherType {
 		rv, ok := ex.hasherMethod(s, recv, m.Name(), args, pend)
 		if ok {
@@ -202,7 +206,7 @@ func (ex *Exec) invoke(s *State, fr *Frame, fn *ssa.Function, args []Value, bind
 
 var skipPrefixes = []string{
 	"github.com/prometheus/", "log.", "(*log.", "os/signal", "runtime.", "runtime/debug.", "(*runtime.",
-	"github.com/rs/xid", "go.opentelemetry", "google.golang.org/grpc/grpclog",
+	"github.com/rs/xid", "github.com/codenotary/immudb/embedded/appendable/fileutils.", "go.opentelemetry", "google.golang.org/grpc/grpclog",
 }
 
 func (ex *Exec) skipPkg(fn *ssa.Function) bool {
@@ -222,6 +226,11 @@ func (ex *Exec) opaqueResults(s *State, sig *types.Signature) Value {
 		if _, ok := t.Underlying().(*types.Pointer); ok {
 			s.opaqueSeq++
 			return Ptr{Obj: s.alloc(Agg{})}
+		}
+		if _, ok := t.Underlying().(*types.Interface); ok && !types.Identical(t, types.Universe.Lookup("error").Type()) {
+			// an opaque non-nil implementation: its methods do nothing
+			s.opaqueSeq++
+			return Iface{T: ex.prog.opaqueType, V: Opaque{T: t, ID: s.opaqueSeq}}
 		}
 		return ex.zero(t)
 	}
